@@ -2358,8 +2358,10 @@ impl VmGreenThread {
             Instr::ArrayPop(dest, reg) => {
                 let val = self.load_offset_or_top(reg);
                 let arr = unsafe { val.get_array_mut(self) };
-                // TODO: what if array is empty?? we're just unwrapping here...
-                let lvalue = arr.data.pop().unwrap();
+                let Some(lvalue) = arr.data.pop() else {
+                    self.error = Some(self.make_error(VmErrorKind::ArrayOutOfBounds).into());
+                    return false;
+                };
                 self.store_offset_or_top(dest, lvalue);
             }
             Instr::ConcatStrings(dest, reg1, reg2) => {
@@ -2400,6 +2402,10 @@ impl VmGreenThread {
             Instr::StringNthByte(dest, reg1, reg2) => {
                 let n = self.load_offset_or_top(reg2).get_int(self);
                 let s = self.load_offset_or_top(reg1).view_string(self);
+                if n < 0 || n as usize >= s.len() {
+                    self.error = Some(self.make_error(VmErrorKind::ArrayOutOfBounds).into());
+                    return false;
+                }
                 self.store_offset_or_top(dest, s.as_bytes()[n as usize] as AbraInt);
             }
             Instr::StringCountBytes(dest, reg) => {
